@@ -141,6 +141,12 @@ func Split(prog int64, nops int, split int, withBase int, listing int) {
 	vp.Assert("same-text-listing", vp.BytesEqual(sa.text, sb.text))
 	errA, errB := a.Finalize(), b.Finalize()
 	vp.Assert("same-finalize-outcome", (errA == nil) == (errB == nil))
+	if errA != nil || errB != nil {
+		// which operands a *failing* Finalize has already patched depends on Go's randomised map
+		// order, for one emitter as much as for two: only the outcome is comparable
+		vp.Reach("end")
+		return
+	}
 	fa, fb := snapshot(a), snapshot(b)
 	vp.Assert("same-finalized-bytes", vp.BytesEqual(fa.bytes, fb.bytes))
 	vp.Assert("same-finalized-listing", vp.BytesEqual(fa.text, fb.text))
